@@ -11,15 +11,15 @@ CONSTANTS
   RotAt = 1000
   StartN = 996
   PauseAt = 2
-  MaxMsgs1 = 1
+  MaxMsgs1 = 3
   MaxMsgs2 = 0
   MaxOps = 30
-  MaxTampers = 1
+  MaxTampers = 0
   MaxBudgetOps = 0
   MaxDisc = 0
-  CutReads = TRUE
+  CutReads = FALSE
   CutHandshake = FALSE
-  EmitEvery = 2
+  EmitEvery = 1
 CONSTRAINT Bound
 VIEW View
 INVARIANT ExactDelivery
